@@ -31,7 +31,7 @@ let ops_of (s : string) = if s = "-" then [] else String.split_on_char ',' s
 
 let register () =
   Registry.register "c15.run" (function
-      | [cons; sched] ->
+      | cons :: sched :: _ ->
         let specs = Stdlib.List.map (fun kc -> let (k, c) = split2 ':' kc in (kind_of k, int_of_string c))
             (String.split_on_char ',' cons) in
         if Stdlib.List.exists (fun (_, c) -> c < 1) specs then "bad-args" else
@@ -58,7 +58,7 @@ let register () =
         report (Array.to_list codes) st
       | _ -> "bad-args");
   Registry.register "c15.group" (function
-      | [cap; subs; sched] ->
+      | cap :: subs :: sched :: _ ->
         let cap = int_of_string cap in
         if cap < 1 then "bad-args" else
         let n = String.length subs in
